@@ -24,6 +24,7 @@ ASSUMPTIONS = [
     "Outside the grammar (not generated): $where, empty-mapping values, mapping-valued operator arguments, "
     "two keys normalising to the same namespaced key in one mapping.",
 ]
+MANIFEST = {"technique": 'runtime monitoring: per-job reference evaluator, locality (single-job projects) and set-algebra monitors over generated corpora x filters', "engine": 'reference-model monitor'}
 TIME_CAP = {"quick": 70, "thorough": 1200}
 
 
